@@ -17,6 +17,7 @@ thread_local! {
     static WRAPPED_PREFILL: Cell<u64> = const { Cell::new(0) };
     static PARTIAL_BATCH: Cell<u64> = const { Cell::new(0) };
     static PADDED: Cell<u64> = const { Cell::new(0) };
+    static REVIVED: Cell<u64> = const { Cell::new(0) };
 }
 fn bump(c: &'static std::thread::LocalKey<Cell<u64>>) {
     c.with(|c| c.set(c.get() + 1));
@@ -215,6 +216,118 @@ fn batch_iterator_conformance(rep: &mut Report, seed: u64, max_cap: usize, scrip
     rep.hit_n("iterator_conformance_scripts", n);
 }
 
+// ------------------------------------------------------------------ a source that is fed later
+/// A source over a queue shared with the harness: it is exhausted while the queue is empty and
+/// live again once more frames are fed (a channel, a bus output whose sibling runs ahead). Its
+/// exhaustion changes BETWEEN calls of the Buffered signal, so whatever Buffered reports must be
+/// asked of the source at that moment. Frame ids are unique and increasing.
+struct LiveSource {
+    q: std::rc::Rc<std::cell::RefCell<VecDeque<f64>>>,
+    pulls: std::rc::Rc<Cell<u64>>,
+}
+impl Signal for LiveSource {
+    type Frame = f64;
+    fn next(&mut self) -> f64 {
+        self.pulls.set(self.pulls.get() + 1);
+        self.q.borrow_mut().pop_front().unwrap_or(0.0)
+    }
+    fn is_exhausted(&self) -> bool {
+        self.q.borrow().is_empty()
+    }
+}
+/// ops: 'n' = next(), 'b<j>' = next_frames().take(j), 'f<k>' = feed k more frames to the source
+fn run_live(rep: &mut Report, cap: usize, ops: &[(u8, usize)]) -> bool {
+    let enc_ops = || ops.iter().map(|(o, k)| format!("{}{}", *o as char, k)).collect::<Vec<_>>().join(".");
+    let case = format!("live=1;cap={};ops={}", cap, enc_ops());
+    let r = vmon::catch(std::panic::AssertUnwindSafe(|| -> Result<(), (String, String)> {
+        let q = std::rc::Rc::new(std::cell::RefCell::new(VecDeque::new()));
+        let pulls = std::rc::Rc::new(Cell::new(0u64));
+        let mut b = LiveSource { q: q.clone(), pulls: pulls.clone() }.buffered(Bounded::from_raw_parts(ops.len() % cap, 0, vec![-9999.0f64; cap]));
+        let (mut msrc, mut mring): (VecDeque<f64>, VecDeque<f64>) = (VecDeque::new(), VecDeque::new());
+        let (mut next_id, mut mpulls) = (1.0f64, 0u64);
+        for (k, &(op, arg)) in ops.iter().enumerate() {
+            let mut refill = |mring: &mut VecDeque<f64>, msrc: &mut VecDeque<f64>, mpulls: &mut u64| {
+                for _ in 0..cap {
+                    mring.push_back(msrc.pop_front().unwrap_or(0.0));
+                    *mpulls += 1;
+                }
+            };
+            match op {
+                b'f' => {
+                    for _ in 0..arg {
+                        q.borrow_mut().push_back(next_id);
+                        msrc.push_back(next_id);
+                        next_id += 1.0;
+                    }
+                }
+                b'n' => {
+                    if mring.is_empty() {
+                        refill(&mut mring, &mut msrc, &mut mpulls);
+                    }
+                    let want = mring.pop_front().unwrap();
+                    let got = b.next();
+                    if got != want {
+                        return Err((format!("buffered|live_source|{}", classify(got, want)), format!("op #{} next() = {}, expected {}", k, got, want)));
+                    }
+                }
+                _ => {
+                    if mring.is_empty() {
+                        refill(&mut mring, &mut msrc, &mut mpulls);
+                    }
+                    let want: Vec<f64> = (0..arg.min(mring.len())).map(|_| mring.pop_front().unwrap()).collect();
+                    let got: Vec<f64> = b.next_frames().take(arg).collect();
+                    if got != want {
+                        return Err(("buffered|live_source|batch".into(), format!("op #{} next_frames().take({}) = {:?}, expected {:?}", k, arg, got, want)));
+                    }
+                }
+            }
+            bump(&EVALS);
+            if pulls.get() != mpulls {
+                return Err(("buffered|live_source|pull_count".into(), format!("after op #{} the source was pulled {} times, model {}", k, pulls.get(), mpulls)));
+            }
+            let want_exh = mring.is_empty() && msrc.is_empty();
+            if b.is_exhausted() != want_exh {
+                return Err(("buffered|live_source|is_exhausted".into(), format!("after op #{} ({}{}) is_exhausted() = {}, but {} frames are buffered and the source holds {} (exhausted means: nothing buffered AND the source exhausted now)", k, op as char, arg, b.is_exhausted(), mring.len(), msrc.len())));
+            }
+            if op == b'f' && mring.is_empty() {
+                bump(&REVIVED);
+            }
+        }
+        Ok(())
+    }));
+    match r {
+        Ok(Ok(())) => true,
+        Ok(Err((sig, d))) => {
+            rep.violation(&sig, format!("cap {} ops {}: {}", cap, enc_ops(), d), case);
+            false
+        }
+        Err(m) => {
+            rep.violation("buffered|live_source|panic", format!("cap {} ops {}: panicked: {}", cap, enc_ops(), m), case);
+            false
+        }
+    }
+}
+fn live_histories(rep: &mut Report, seed: u64, n: u64, threads: usize) {
+    let reps = vmon::par_for(threads, n, 16, |_| Report::new("C14", "w"), |rep, i| {
+        let mut rng = Rng::derive(seed, &[142, i]);
+        let cap = 1 + rng.usize_below(6);
+        let len = 4 + rng.usize_below(30);
+        let ops: Vec<(u8, usize)> = (0..len)
+            .map(|_| match rng.below(10) {
+                0..=3 => (b'n', 0),
+                4..=6 => (b'b', rng.usize_below(cap + 2)),
+                _ => (b'f', rng.usize_below(2 * cap + 2)),
+            })
+            .collect();
+        run_live(rep, cap, &ops);
+        rep.nontrivial(vmon::hash_combine(cap as u64, vmon::hash_str(&format!("{:?}", ops))));
+        flush(rep);
+    });
+    for r in reps {
+        rep.merge(r);
+    }
+}
+
 fn classify(got: f64, want: f64) -> &'static str {
     if got == -9999.0 {
         "dead_slot_exposed"
@@ -258,6 +371,10 @@ fn flush(rep: &mut Report) {
     rep.hit_n("wrapped_prefill", WRAPPED_PREFILL.with(|c| c.replace(0)));
     rep.hit_n("partially_drained_batch", PARTIAL_BATCH.with(|c| c.replace(0)));
     rep.hit_n("drain_ended_with_padding", PADDED.with(|c| c.replace(0)));
+    let n = REVIVED.with(|c| c.replace(0));
+    if n > 0 {
+        rep.hit_n("source_fed_again_after_buffered_ran_dry", n);
+    }
 }
 
 fn main() {
@@ -266,6 +383,12 @@ fn main() {
     let mut rep = Report::new("C14", &cli.stage);
     if let Some(cs) = &cli.case {
         let m = vmon::cli::parse_case(cs);
+        if m.contains_key("live") {
+            let ops: Vec<(u8, usize)> = m["ops"].split('.').filter(|s| !s.is_empty()).map(|s| (s.as_bytes()[0], s[1..].parse().unwrap())).collect();
+            run_live(&mut rep, m["cap"].parse().unwrap(), &ops);
+            flush(&mut rep);
+            finish(&cli, rep, t0);
+        }
         if m.contains_key("iterconf") {
             batch_iterator_conformance(&mut rep, cli.seed, m["cap"].parse::<usize>().unwrap().max(1), 60);
             flush(&mut rep);
@@ -328,6 +451,8 @@ fn main() {
         rep.merge(r);
     }
     if cli.stage == "main" || cli.stage == "release" {
+        rep.oblige("source_fed_again_after_buffered_ran_dry", 1);
+        live_histories(&mut rep, cli.seed, cli.t(3_000, 300_000), cli.threads);
         rep.oblige("iterator_conformance_scripts", 1);
         batch_iterator_conformance(&mut rep, cli.seed, cli.t(4, 6), cli.t(8, 40));
         rep.exhaustive(format!("capacities 1..={} x every (start, prefill length) x source lengths 0..={} x every sequence of {} operations from {{next, next_frames().take(j) for j in 0..=cap+1}}, finishing alternately with into_parts and until_exhausted", max_cap, max_src, seq_len));
